@@ -1525,6 +1525,34 @@ fn run_random(ctx: &mut Ctx, rng: &mut Rng, count: u64) {
     ctx.rep.count_n("random:sequences", done);
 }
 
+// ------------------------------------------------------------------ initial-dump probe (observation only)
+
+/// Not one of the judged clauses: what the real `PeerSession::on_established`
+/// sends to a peer that establishes while a family is still held.  The held
+/// clause is stated on the registered peer channel; the initial dump bypasses
+/// that channel (it reads the Loc-RIB under the shard lock).  Counted, not
+/// judged; see the report.
+async fn initial_dump_probe(env: &Env, global: GlobalHandle) -> (usize, usize) {
+    let cfg = Cfg { helper: [1, 1, 0], timer: true, shards: 1, mode: Mode::Glue };
+    let mut sys = Sys::start(env, &cfg, global, None).await;
+    // two routes received from p1 while ipv4 is held (p1, p2 pending)
+    sys.insert(0, 0, 0, 1);
+    sys.insert(0, 1, 0, 2);
+    let held_on_channel = sys.drain().len();
+    let addr = IpAddr::V4(Ipv4Addr::new(10, 0, 0, 50));
+    let mut s = PeerSession::new_for_test(addr, make_peer_context(), sys.tables.clone());
+    let mp = [packet::Capability::MultiProtocol(Family::IPV4)];
+    s.codec = bgp::PeerCodec::negotiate(&mp, &mp);
+    s.state.remote_cap.store(Some(Arc::new(vec![])));
+    let sa = SocketAddr::new(addr, 179);
+    s.on_established(SocketAddr::new(IpAddr::V4(Ipv4Addr::new(127, 0, 0, 1)), 179), sa).await;
+    let msgs = s.pending.get_mut(&Family::IPV4).map(|p| p.drain_messages(Family::IPV4)).unwrap_or_default();
+    let updates_with_routes = msgs.iter().filter(|m| matches!(m, bgp::Message::Update(u) if !matches!(u, bgp::Update::EndOfRib(_)))).count();
+    sys.tables.unregister_peer(addr, &[], &[]);
+    sys.finish().await;
+    (held_on_channel, updates_with_routes)
+}
+
 // ------------------------------------------------------------------ machine-only exhaustive (full alphabet, deeper)
 
 /// The bare `RestartingDeferral` against the same model, judged on its output
@@ -1814,6 +1842,20 @@ fn run() {
     if part == "machine" {
         for c in cfgname.split('+') {
             exhaustive_ok &= run_machine(&mut ctx, c, depth, shard, nshards);
+        }
+    }
+    if part == "rnd" || part == "all" {
+        let g = ctx.global.clone();
+        let env = &ctx.env;
+        let rt = &ctx.rt;
+        match guard(|| rt.block_on(initial_dump_probe(env, g))) {
+            Ok((on_channel, to_new_peer)) => {
+                ctx.rep.count("initial-dump-probe:runs");
+                if on_channel == 0 && to_new_peer > 0 {
+                    ctx.rep.count("unjudged:initial-dump-sends-held-family-to-newly-established-peer");
+                }
+            }
+            Err(p) => ctx.rep.count(&format!("unjudged:initial-dump-probe-panicked:{}", p.location)),
         }
     }
     if part == "rnd" {
